@@ -27,14 +27,16 @@ class C11(EngineProp):
     level_note = 'Trusted: as C07; a cut while a user coroutine handler is suspended mid-await is represented only as "handler pending".'
     design_ref = '§5 C11'
     rule = ('as C07, with orderly EOF, transport error or explicit close() injected after 3..22 groups on any mix of pending interactions in both roles, followed by further '
-            'application activity; plus a real TransportTCP endpoint (either role) with 0..2 pending request-responses, stream subscriptions and suspended incoming handlers whose byte stream is cut after 0..40 bytes of a frame by EOF, ConnectionResetError or TimeoutError, then 0..2 request-responses / streams issued on the dead endpoint before the application calls close() (close() must fail them); non-trivial = at least one interaction pending at the moment of loss; distinct = distinct entry-point sequence')
+            'application activity; plus a real TransportTCP endpoint (either role) with 0..2 pending request-responses, stream subscriptions and suspended incoming handlers whose byte stream is cut after 0..40 bytes of a frame by EOF, ConnectionResetError or TimeoutError, or by the application's own close() of the live connection, with an on_close handler that may issue one more request (it must be failed when close() returns); then 0..2 request-responses / streams issued on the dead endpoint before the application calls close() (close() must fail them); non-trivial = at least one interaction pending at the moment of loss; distinct = distinct entry-point sequence')
     assumptions = ['application cancel()/on_close callbacks do not raise unless scripted to']
 
     # -- the byte-stream transport: the link is cut between any two bytes, by EOF or by a read error -------------------------
     def cases(self, rng, tier):
         out = super().cases(rng, tier)
         for _ in range(240 if tier == 'quick' else 3000):
-            out.append({'mode': 'tcp', 'role': rng.choice(['client', 'server']), 'profile': 'tcp-cut', 'cut': rng.choice(['eof', 'reset', 'timeout']),
+            out.append({'mode': 'tcp', 'role': rng.choice(['client', 'server']), 'profile': 'tcp-cut', 'cut': rng.choice(['eof', 'reset', 'timeout', 'close']),
+                        # the application's close notification asks once more (a last request / a retry): the endpoint is going away, it must be failed
+                        'ask_in_on_close': rng.random() < 0.4,
                         'partial': rng.randint(0, 40), 'rr': rng.randint(0, 2), 'streams': rng.randint(0, 2), 'incoming': rng.randint(0, 2),
                         'producers': rng.choice([0, 1, 1, 2]), 'producer_kind': rng.choice(['gen', 'agen']), 'producer_when': rng.choice(['early', 'same-read']),
                         'late_rr': rng.choice([0, 0, 1, 2]), 'late_streams': rng.choice([0, 0, 1])})
@@ -57,7 +59,7 @@ class C11(EngineProp):
         from rsocket.payload import Payload
         from harness import engine
         from harness.link import Writer
-        log = {'on_close': 0, 'handler_futures': [], 'wire': bytearray(), 'pulls': [], 'pulls_at_close': None}
+        log = {'on_close': 0, 'handler_futures': [], 'wire': bytearray(), 'pulls': [], 'pulls_at_close': None, 'asked': []}
 
         class L:
             stream = [log['wire'], bytearray()]
@@ -77,6 +79,8 @@ class C11(EngineProp):
             async def on_close(self, rsocket, exception=None):
                 log['on_close'] += 1
                 log['pulls_at_close'] = len(log['pulls'])
+                if case.get('ask_in_on_close'):
+                    log['asked'].append(rsocket.request_response(Payload(b'last')))
         if case['role'] == 'client':
             ep = RSocketClient(single_transport_provider(t), handler_factory=H, keep_alive_period=timedelta(seconds=100000), max_lifetime_period=timedelta(seconds=1000000))
             await ep.connect()
@@ -120,7 +124,12 @@ class C11(EngineProp):
             reader.feed_data(tail[:case['partial']])
             if not (case.get('producers') and case.get('producer_when') == 'same-read'):
                 await loop.settle()
-        if case['cut'] == 'eof':
+        if case['cut'] == 'close':
+            # the application closes a live connection itself
+            await ep.close()
+            await loop.settle()
+            log['asked_after_close'] = ['pending' if not f.done() else ('cancelled' if f.cancelled() else ('error:' + type(f.exception()).__name__ if f.exception() else 'result')) for f in log['asked']]
+        elif case['cut'] == 'eof':
             reader.feed_eof()
         elif case['cut'] == 'reset':
             reader.set_exception(ConnectionResetError(104, 'Connection reset by peer'))
@@ -157,6 +166,8 @@ class C11(EngineProp):
         res['late_futures'] = ['pending' if not f.done() else ('cancelled' if f.cancelled() else ('error:' + type(f.exception()).__name__ if f.exception() else 'result')) for f in late_futs]
         res['late_subs'] = [s.events for s in late_subs]
         res['table_after_close'] = sorted(ep._stream_control._streams.keys())
+        res['asked_after_explicit_close'] = log.get('asked_after_close')
+        res['asked_in_on_close'] = ['pending' if not f.done() else ('cancelled' if f.cancelled() else ('error:' + type(f.exception()).__name__ if f.exception() else 'result')) for f in log['asked']]
         res['pulled_after_close'] = (len(log['pulls']) - log['pulls_at_close']) if log['pulls_at_close'] is not None else 0
         res['source_tasks_alive'] = sorted({getattr(tk.get_coro(), '__qualname__', '?') for tk in asyncio.all_tasks()
                                             if tk is not asyncio.current_task() and not tk.done() and 'Stream' in getattr(tk.get_coro(), '__qualname__', '')})
@@ -206,11 +217,16 @@ class C11(EngineProp):
             fails.append({'signature': 'sender-still-running', 'what': 'TransportTCP, %s: the sender task is still running' % how})
         if obs['written_after_end']:
             fails.append({'signature': 'sends-after-close', 'what': 'TransportTCP, %s: %d bytes written after the connection ended' % (how, obs['written_after_end'])})
-        if obs['table']:
-            fails.append({'signature': 'streams-left-registered', 'what': 'TransportTCP, %s: streams %s still registered' % (how, obs['table'])})
+        # (a request the application issues inside on_close is registered until close(): the table is then read after close())
+        left = obs.get('table_after_close', []) if case.get('ask_in_on_close') else obs['table']
+        if left:
+            fails.append({'signature': 'streams-left-registered', 'what': 'TransportTCP, %s: streams %s still registered' % (how, left)})
         for i, f in enumerate(obs.get('late_futures', [])):
             if not f.startswith('error'):
                 fails.append({'signature': 'request-pending-at-close-not-failed:' + case['role'], 'what': 'TransportTCP, %s: request-response %d issued after the loss and before close() is %s after close()' % (how, i, f)})
+        for i, f in enumerate(obs.get('asked_after_explicit_close') or obs.get('asked_in_on_close', [])):
+            if not f.startswith('error'):
+                fails.append({'signature': 'request-issued-in-on_close-not-failed:' + case['role'], 'what': 'TransportTCP, %s: a request-response issued by the application inside on_close is %s after close() returned' % (how, f)})
         for i, ev in enumerate(obs.get('late_subs', [])):
             if not ev or ev[-1].split(':')[0] != 'error':
                 fails.append({'signature': 'subscriber-pending-at-close-not-failed:' + case['role'], 'what': 'TransportTCP, %s: the subscriber of request-stream %d issued after the loss and before close() saw %s' % (how, i, ev)})
